@@ -126,9 +126,9 @@ func defaultCases(prop, tier string) int {
 		return 21 * 300
 	case "C18":
 		if thorough {
-			return 21 * 150
+			return 21 * 1000
 		}
-		return 21 * 12
+		return 21 * 30
 	}
 	return 0
 }
@@ -384,6 +384,9 @@ func buildState(idx int, rng *rand.Rand, kind string, cr *caseResult) (d *drv, o
 	cr.Hist = historyText(ops)
 	if d.c.Size() > 0 {
 		cr.Nontrivial = hashCase(cfg, ops)
+	}
+	for _, t := range stateTags(d, ops) {
+		cr.Checks[t]++
 	}
 	vlogf("case %d  %s\n", idx, cfg.Text())
 	for i, o := range ops {
